@@ -806,13 +806,67 @@ def gen_xrfm(r, n):
 
 
 # ------------------------------------------------------------------------------------------------
+def exec_large(p):
+    """A query set so large that x-by-z-by-d intermediates cross 2^24 entries (internal blocking of the gradient code): the
+    gradient at a point is a function of that point, so the rows of the big call must equal those of a small call."""
+    import numpy as np
+    import torch
+    res = {'family': p['family'], 'params': p, 'disagreements': [], 'failures': [], 'dist': {}}
+    g = torch.Generator().manual_seed(p['seed'])
+    dt = torch.float64
+    d, nx, nz, f = p['d'], p['nx'], p['nz'], p['f']
+    x = torch.randn(nx, d, generator=g, dtype=dt)
+    z = torch.randn(nz, d, generator=g, dtype=dt) * 1.5
+    c = torch.randn(f, nx, generator=g, dtype=dt)
+    T = None
+    if p['tm'] == 'diag':
+        T = torch.rand(d, generator=g, dtype=dt) * 0.9 + 0.1
+    kobj = make_kernel(p['kernel'])
+    sel = sorted(set(list(range(4)) + list(range(nz - 8, nz)) + [int(i) for i in torch.randint(4, nz - 8, (4,), generator=g)]))
+    try:
+        big = kobj.get_function_grads(x, z, c, T)
+        small = make_kernel(p['kernel']).get_function_grads(x, z[sel].clone(), c, T)
+    except Exception as e:
+        res['failures'].append({'signature': f'C04:raises:{type(e).__name__}', 'detail': f'get_function_grads on {nz} points: {str(e)[:200]}'})
+        return res
+    big, small = big.double().numpy(), small.double().numpy()
+    if big.shape != (f, nz, d):
+        res['failures'].append({'signature': 'C04:wrong-shape', 'detail': f'gradient of shape {big.shape} for {f} outputs, {nz} points, d={d}'})
+        return res
+    err = np.abs(big[:, sel] - small)
+    tol = 1e-5 * max(1e-12, float(np.abs(small).max()))
+    if not (err <= tol).all():
+        l, j, a = np.unravel_index(int(np.argmax(err)), err.shape)
+        res['failures'].append({'signature': f'C04:large-query-set:{p["kernel"]["kind"]}',
+                                'detail': f'{type(kobj).__name__}: gradient of output {int(l)} at point {sel[int(j)]} of {nz} is {big[l, sel[j], a]!r} in the big call and '
+                                          f'{small[l, j, a]!r} when the point is evaluated in a batch of {len(sel)} (coordinate {int(a)})'})
+    res['nontrivial'] = ['large', p['kernel']['kind'], p['seed']] if float(np.abs(small).max()) > 0 else None
+    res['dist'] = {'kind': p['kernel']['kind'], 'points': 'above 2^24 x-z-d entries', 'transform': p['tm']}
+    res['sample'] = {'kernel': p['kernel'], 'nx': nx, 'nz': nz, 'd': d, 'outputs': f, 'max_row_difference': float(err.max())}
+    return res
+
+
+def gen_large(r, quick):
+    cases = []
+    for t, kind in enumerate(KINDS if quick else list(KINDS) * 2):
+        k = gen_kernel(r, kind, [1.0, 1.3, 0.7][t % 3])
+        nx, d = 48, 4
+        nz = (2 ** 24) // (nx * d) + 1 + r.randint(3, 40)       # crosses 2^24 entries ...
+        nz += (5 - nz) % 6                                      # ... and leaves a remainder for blocks of one half or one third
+        cases.append({'family': 'kernel-grads-large', 'kernel': k, 'd': d, 'nx': nx, 'nz': nz, 'f': 1 + t % 2, 'tm': ['none', 'diag'][t % 2],
+                      'seed': r.randint(0, 2 ** 31 - 1)})
+    return cases
+
+
 def execute(chunk):
     drv = core.Driver('C04')
     out = []
     try:
         for p in chunk['cases']:
             fam = p['family']
-            if fam.startswith('kernel-grads'):
+            if fam == 'kernel-grads-large':
+                out.append(exec_large(p))
+            elif fam.startswith('kernel-grads'):
                 out.append(exec_block(p, drv))
             elif fam == 'rfm-grads':
                 out.append(exec_rfm(p, drv))
@@ -835,10 +889,10 @@ def check(run):
     run.lean()
     quick = run.tier == 'quick'
     r = run.rng
-    cases = gen_blocks(r, 500 if quick else 5000) + gen_rfm(r, 30 if quick else 150) + gen_xrfm(r, 8 if quick else 40)
+    cases = gen_blocks(r, 500 if quick else 5000) + gen_rfm(r, 30 if quick else 150) + gen_xrfm(r, 8 if quick else 40) + gen_large(r, quick)
     if run.driver_ok:
         # fitted models first (slowest), blocks spread evenly
-        cases.sort(key=lambda p: 0 if p['family'].startswith('xrfm') else 1 if p['family'] == 'rfm-grads' else 2)
+        cases.sort(key=lambda p: 0 if p['family'].startswith('xrfm') or p['family'] == 'kernel-grads-large' else 1 if p['family'] == 'rfm-grads' else 2)
         nchunks = 48 if quick else 128
         groups = [cases[i::nchunks] for i in range(nchunks)]
         results = core.pmap(MOD, [{'cases': c} for c in groups if c])
